@@ -16,8 +16,8 @@ def obligations(tier):
         ch("hop_vtt_end", "harness.C08_chain", timeout=T, functions=("WebVTTWriter.write", "WebVTTReader.read"), bounds="2 cues, end of cue 2 symbolic over [1 ms, 1 h)"),
         ch("hop_mdvd_start", "harness.C08_chain", timeout=T, functions=("MicroDVDWriter.write", "MicroDVDReader.read"), bounds="2 cues, start of cue 2 symbolic over [2 frames, 24 h); float kernels replaced by their E2-proved integer contracts"),
         ch("hop_mdvd_end", "harness.C08_chain", timeout=T, functions=("MicroDVDWriter.write", "MicroDVDReader.read"), bounds="2 cues, end of cue 2 symbolic"),
-        ch("hop_dfxp_begin", "harness.C08_chain", timeout=T, functions=("Caption.format_start", "DFXPReader._convert_timestamp_to_microseconds"), bounds="begin attribute text for every instant in [0, 24 h) read back by the TTML time-expression kernel"),
-        ch("hop_dfxp_end", "harness.C08_chain", timeout=T, functions=("Caption.format_end", "DFXPReader._convert_timestamp_to_microseconds"), bounds="end attribute text for every instant in [0, 24 h)"),
+        ch("hop_dfxp_begin", "harness.C08_chain", timeout=min(T, 300), functions=("Caption.format_start", "DFXPReader._convert_timestamp_to_microseconds"), bounds="begin attribute text for every instant in [0, 24 h) read back by the TTML time-expression kernel"),
+        ch("hop_dfxp_end", "harness.C08_chain", timeout=min(T, 300), functions=("Caption.format_end", "DFXPReader._convert_timestamp_to_microseconds"), bounds="end attribute text for every instant in [0, 24 h)"),
         ch("hop_sami", "harness.C08_chain", timeout=T, functions=("SAMIWriter._recreate_p_tag", "_recreate_blank_tag", "SAMIReader._translate_lang"), bounds="2 cues with arbitrary instants (each spanning a millisecond boundary, separated by one): sync placement -> serialisation contract -> sync reading"),
         ch("text_hop", "harness.C08_chain", timeout=T, functions=("SRT/WebVTT/MicroDVD write() then read()",), bounds="a text line of 1-3 arbitrary printable code points through write+read of the three pure-Python formats (markup syntax of WebVTT excluded: C03+C04)"),
         ch("text_hop_vtt_amp", "harness.C08_chain", timeout=T, functions=("WebVTTWriter.write", "_encode_illegal_characters", "WebVTTReader.read", "_decode"), bounds="text '&' + 3 arbitrary printable code points (entity-looking text) through the WebVTT hop: exactly one level of references is decoded"),
